@@ -191,7 +191,14 @@ const (
 	// and explicit empty statements are ignored. Used to compare gopatch's
 	// output (which was printed and re-parsed) with the expected tree.
 	Output
+	// OutputParens is Output, except that parentheses count in one
+	// direction: code may come back with more parentheses than expected
+	// (gopatch and the printer add some to keep the meaning), but a
+	// parenthesis that is expected and absent is a difference.
+	OutputParens
 )
+
+func (m Mode) output() bool { return m == Output || m == OutputParens }
 
 // tokenPos lists the position fields whose validity stands for the presence
 // of a token that no other field records.
@@ -215,14 +222,16 @@ var (
 
 // strip looks through ParenExpr nodes in Output mode.
 func strip(t *Tree, m Mode) *Tree {
-	for m == Output && t != nil && t.Kind == KNode && t.RT == parenPtr {
+	for m.output() && t != nil && t.Kind == KNode && t.RT == parenPtr {
 		t = t.Field("X")
 	}
 	return t
 }
 
+func isParen(t *Tree) bool { return t != nil && t.Kind == KNode && t.RT == parenPtr }
+
 func listElems(t *Tree, m Mode) []*Tree {
-	if m != Output {
+	if !m.output() {
 		return t.Kids
 	}
 	var out []*Tree
@@ -298,6 +307,9 @@ func diffPath(want, got *Tree, m Mode, path []string) *Difference {
 		}
 		return first
 	}
+	if m == OutputParens && isParen(want) && !isParen(got) && got != nil {
+		return &Difference{Path: append([]string(nil), path...), Want: want, Got: got, Why: "expected parentheses are absent"}
+	}
 	want, got = strip(want, m), strip(got, m)
 	if want != nil && want.Kind == KAlt {
 		return diffPath(want, got, m, path)
@@ -369,7 +381,7 @@ func diffPath(want, got *Tree, m Mode, path []string) *Difference {
 		}
 		// "func f() ()" is printed as "func f()": an empty result list and
 		// no result list are the same output.
-		if m == Output && len(path) > 0 && path[len(path)-1] == "FuncType.Results" {
+		if m.output() && len(path) > 0 && path[len(path)-1] == "FuncType.Results" {
 			if (want.Kind == KNil && emptyFieldList(got)) || (got.Kind == KNil && emptyFieldList(want)) {
 				return nil
 			}
